@@ -203,6 +203,26 @@ class ElemEval:
                 return self.ev(st.value, env, depth) if st.value is not None else ('num', None)
             if isinstance(st, (ast.Pass,)):
                 continue
+            if isinstance(st, ast.For) and isinstance(st.target, ast.Name) and not st.orelse:
+                items = None
+                if isinstance(st.iter, (ast.Tuple, ast.List)):
+                    items = [self.ev(x, env, depth) for x in st.iter.elts]
+                else:
+                    rng = self._const_range(st.iter)
+                    if rng is not None and len(rng) <= 16:
+                        items = [('num', k) for k in rng]
+                    else:
+                        v = self.ev(st.iter, env, depth)
+                        if v[0] == 'lst' and len(v[1]) <= 16:
+                            items = list(v[1])
+                if items is not None and not any(isinstance(n, (ast.Break, ast.Continue)) for n in ast.walk(st)):
+                    r = None
+                    for it in items:
+                        env[st.target.id] = it
+                        r = self.block(st.body, env, depth)
+                        if r is not None:
+                            return r
+                    continue
             # anything else: forget what it binds
             for n in ast.walk(st):
                 if isinstance(n, ast.Name) and isinstance(n.ctx, ast.Store):
